@@ -250,8 +250,9 @@ def classify(ops):
 def setup(chk, props):
     build = vlib.build_repo("hooks")
     drv = vlib.build_driver("mockvm", build)
-    chk.prove(props)
+    chk.prove(props + ["Properties_Code_Mocks.v"])
     chk.cov["trusted_base"] = TRUSTED + [
+        "Properties_Code_Mocks.v: find_expectation(), have_always_expectation_for(), have_never_call_expectation_for(), remove_expectation_for() and destroy_expectation_if_time_to_die() of src/mocks.c, translated whole on every run, are proved equal to Mocks.v's find_exp / have_always / have_never / remove_first / after_use for every queue (CLite interpreter; CgreenVector calls have list semantics, records live in a heap)",
         "tools/srccode.py: the queue functions of src/mocks.c (find_expectation, remove_expectation_for, have_always/never..., remove_never_call..., destroy_expectation_if_time_to_die, successfully_mocked_call) are translated whole into CLite programs on every run and run by the extracted interpreter against Mocks.v on every queue of up to 3 (thorough: 4) entries: a function-level correspondence check, not a proof",
         "axioms: see coverage.print_assumptions"]
     import codetie, re as _re
